@@ -1938,6 +1938,13 @@ impl VerifProbe {
         Some(me.store.verif_orphans())
     }
 
+    /// The same records with the queues that still hold them (see
+    /// `Store::verif_orphan_flags`).
+    pub fn orphan_flags(&self) -> Option<Vec<(u32, u8)>> {
+        let me = self.inner.try_lock().ok()?;
+        Some(me.store.verif_orphan_flags())
+    }
+
     /// True if neither internal lock is held right now.
     pub fn locks_free(&self) -> bool {
         (self.send_len)().is_some() && self.inner.try_lock().is_ok()
